@@ -3,6 +3,7 @@ from mir2smt.ob import *
 from mir2smt import terms as T
 
 CRATES = ["ckb-occupied-capacity-core", "ckb-constant", "ckb-types", "ckb-chain-spec"]
+from mir2smt.exec import OpaqueV, AggV, EnumV, BoolV
 U64 = (1 << 64) - 1
 VAL = []   # (session, ctx, concrete input assignments) for translator validation
 # literals from util/types/src/core/tests and boundary values of the bit fields
@@ -318,7 +319,172 @@ def m8_bounding_hash_rate(S):
     S.witness(ctx, ob, "reach_upper_clamp", pre + [T.gt(prev.t, 0)], T.and_(T.eq(val, T.mul(prev.t, 2)), T.gt(prev.t, 1 << 100)))
 
 
-OBLIGATIONS = [m1_fields, m2_order, m3_min_epoch, m4_primary_rewards, m5_secondary, m6_halving, m7_bounding_length, m8_bounding_hash_rate]
+
+def rational_env(ctx):
+    """exact rationals for ckb_rational::RationalU256: pairs (numerator, denominator) of unbounded integers, no gcd reduction.
+    Panics kept: zero denominator in new(), division by a zero rational. U256 overflow inside the real rational code is NOT
+    modelled (stated assumption)."""
+    from mir2smt.builtins import deref
+    from mir2smt import envlib as E
+    from mir2smt.exec import Panic
+
+    def R(n, d):
+        return AggV((IntV(n, "U512"), IntV(d, "U512")), "RationalU256")
+
+    def parts(ex, v):
+        v = deref(ex, v)
+        if isinstance(v, IntV):
+            return v.t, 1
+        return v.fields[0].t, v.fields[1].t
+
+    def new(ex, c, a, d):
+        n, dd = deref(ex, a[0]).t, deref(ex, a[1]).t
+        if not ex.decide(T.ne(dd, 0)):
+            raise Panic("RationalU256::new: zero denominator")
+        return R(n, dd)
+
+    def add(ex, c, a, d):
+        (n1, d1), (n2, d2) = parts(ex, a[0]), parts(ex, a[1])
+        return R(T.add(T.mul(n1, d2), T.mul(n2, d1)), T.mul(d1, d2))
+
+    def mul(ex, c, a, d):
+        (n1, d1), (n2, d2) = parts(ex, a[0]), parts(ex, a[1])
+        return R(T.mul(n1, n2), T.mul(d1, d2))
+
+    def div(ex, c, a, d):
+        (n1, d1), (n2, d2) = parts(ex, a[0]), parts(ex, a[1])
+        if not ex.decide(T.ne(n2, 0)):
+            raise Panic("RationalU256 division by zero")
+        return R(T.mul(n1, d2), T.mul(d1, n2))
+
+    def gt(ex, c, a, d):
+        (n1, d1), (n2, d2) = parts(ex, a[0]), parts(ex, a[1])
+        return BoolV(T.gt(T.mul(n1, d2), T.mul(n2, d1)))
+
+    def ssub(ex, c, a, d):
+        (n1, d1), (n2, d2) = parts(ex, a[0]), parts(ex, a[1])
+        x = T.mul(n2, d1)
+        if ex.decide(T.gt(T.mul(n1, d2), x) if d2 != 1 else T.gt(n1, x)):
+            return R(T.sub(T.mul(n1, d2), T.mul(n2, d1)), T.mul(d1, d2))
+        return R(0, 1)
+
+    return [
+        (E.rx(r"^RationalU256::new$"), new),
+        (E.rx(r"RationalU256 as Add<.*>>::add$"), add),
+        (E.rx(r"RationalU256 as Mul<.*>>::mul$"), mul),
+        (E.rx(r"RationalU256 as Div(<.*>)?>::div$"), div),
+        (E.rx(r"RationalU256 as PartialOrd>::gt$"), gt),
+        (E.rx(r"^RationalU256::saturating_sub_u256$"), ssub),
+        (E.rx(r"^RationalU256::one$"), lambda ex, c, a, d: R(1, 1)),
+        (E.rx(r"^RationalU256::is_zero$"), lambda ex, c, a, d: BoolV(T.eq(parts(ex, a[0])[0], 0))),
+        (E.rx(r"^RationalU256::into_u256$"), lambda ex, c, a, d: IntV(T.ediv(*parts(ex, a[0])), "U256")),
+    ]
+
+
+def m9_next_epoch(S):
+    """Consensus::next_epoch_ext, tail block, adaptive difficulty: length bounds, hash-rate clamp, difficulty formula
+    (RFC-0020 in exact rationals), reward split and field wiring of the new EpochExt"""
+    ob = "C07.m9"
+    from mir2smt import envlib as E
+    from mir2smt.builtins import deref
+    ctx = S.ctx()
+    cons = consensus(ctx)
+    ep, f = epoch_ext(ctx)
+    U = ctx.int("uncles", "u64"); DUR = ctx.int("dur_ms", "u64"); D = ctx.int("last_diff", "U256")
+    hn = ctx.int("hdr.number", "u64")
+    on = ctx.int("orphan_n", "U256"); od = ctx.int("orphan_d", "U256")
+    prev = ctx.int("ep.3", "U256").t
+    compact_calls = []
+    ctx.uninterpreted_unknown_calls = True
+    ctx.env = rational_env(ctx) + [
+        (E.rx(r"Consensus::permanent_difficulty$"), E.const_bool(False)),
+        (E.rx(r"Consensus::orphan_rate_target$"), lambda ex, c, a, d: AggV((IntV(on.t, "U512"), IntV(od.t, "U512")), "RationalU256")),
+        (E.rx(r"HeaderView::difficulty$"), lambda ex, c, a, d: D),
+        (E.rx(r"HeaderView::number$"), lambda ex, c, a, d: hn),
+        (E.rx(r"HeaderView::hash$"), lambda ex, c, a, d: OpaqueV("hdr_hash", d)),
+        (E.rx(r"^u256_low_u64$"), lambda ex, c, a, d: IntV(T.emod(deref(ex, a[0]).t, 1 << 64), "u64")),
+        (E.rx(r"difficulty_to_compact$"), lambda ex, c, a, d: (compact_calls.append((T.and_(*ex.pc), deref(ex, a[0]).t)), ctx.int("compact_of_next_diff", "u32"))[1]),
+        (E.rx(r"U256 as (ToOwned|Clone)>::(to_owned|clone)$"), lambda ex, c, a, d: deref(ex, a[0])),
+        (E.rx(r"EpochExt as Clone>::clone$"), lambda ex, c, a, d: deref(ex, a[0])),
+    ]
+    clo = S.prog.closures.get("{closure@spec/src/consensus.rs:822:18: 822:31}")
+    if clo is None:
+        cl = [f_ for k_, f_ in S.prog.closures.items() if "next_epoch_ext::{closure#0}" in f_.name]
+        if len(cl) != 1:
+            raise Inconclusive("next_epoch_ext closure not found")
+        clo = cl[0]
+    capt = AggV((ctx.ref_to(cons), ctx.ref_to(OpaqueV("hdr", "HeaderView"))), clo.params[0][1])
+    be = EnumV(0, ((0, (ep, U, DUR)),), "BlockEpoch")      # BlockEpoch::TailBlock { epoch, epoch_uncles_count, epoch_duration_in_milliseconds }
+    MAXL = getter(S, ctx, cons, "max_epoch_length"); MINL = getter(S, ctx, cons, "min_epoch_length")
+    TGT = getter(S, ctx, cons, "epoch_duration_target")
+    interval = getter(S, ctx, cons, "primary_epoch_reward_halving_interval")
+    L = f["length"]
+    sane = [T.le(1, MINL), T.le(MINL, MAXL), T.le(MAXL, 1 << 20), T.le(MINL, T.mul(L, 2)), T.le(T.ediv(L, 2), MAXL), T.le(1, L), T.le(L, 1 << 20),
+            T.le(U.t, T.mul(L, 2)), T.le(1, D.t), T.lt(D.t, 1 << 200), T.lt(prev, 1 << 200), T.le(1, TGT), T.le(TGT, 1 << 32),
+            T.le(1, on.t), T.lt(on.t, od.t), T.le(od.t, 1 << 16), T.lt(f["number"], (1 << 24) - 1), T.lt(hn.t, (1 << 63)),
+            T.gt(interval, 0), T.lt(T.ediv(T.add(f["number"], 1), interval), 64), T.le(T.add(T.mul(f["base"], L), f["rem"]), U64)]
+    ps = S.run(ctx, clo, [capt, be], assume=sane)
+    S.prove(ctx, ob, "no_panic_for_stored_epoch_statistics", sane, T.not_(cond_of(panics(ps))), timeout_s=300)
+    rs = returns(ps)
+    # result: NextBlockEpoch::HeadBlock(EpochExt) = variant 0
+    def fld(v, i):
+        e = v.payload(0)[0]
+        x = e.fields[i] if isinstance(e, AggV) else None
+        return x
+    S.prove(ctx, ob, "tail_block_yields_head_block_of_next_epoch", sane, T.and_(*[T.implies(p.cond(), T.eq(p.value.disc, 0)) for p in rs]))
+    dur_s = T.imax(T.ediv(DUR.t, 1000), 1)
+    hps = T.ediv(T.mul(D.t, T.add(L, U.t)), dur_s)
+    clamped = T.ite(T.eq(prev, 0), hps, T.ite(T.lt(hps, T.ediv(prev, 2)), T.ediv(prev, 2), T.ite(T.gt(hps, T.mul(prev, 2)), T.mul(prev, 2), hps)))
+    adj = T.imax(clamped, 1)
+    lo = T.imax(MINL, T.ediv(L, 2)); hi = T.imin(MAXL, T.mul(L, 2))
+    nlen = merged(ps, lambda v: as_int(fld(v, 6)))
+    S.prove(ctx, ob, "next_length_within_consensus_limits_and_factor_two", sane, T.and_(T.le(lo, nlen), T.le(nlen, hi), T.le(MINL, nlen), T.le(nlen, MAXL)), timeout_s=300)
+    S.prove(ctx, ob, "no_uncles_means_longest_allowed_epoch", sane + [T.eq(U.t, 0)], T.eq(nlen, hi), timeout_s=300)
+    # raw length formula (RFC-0020): L' = floor( o*(1+o_i)*T*L / (o_i*(1+o)*dur) ), o_i = U/L, o = on/od  (exact rationals)
+    raw_num = T.mul(T.mul(T.mul(on.t, T.add(U.t, L)), TGT), L)          # on/od * (U+L)/L * T * L   (numerators)
+    raw_den = T.mul(T.mul(T.mul(od.t, L), T.mul(U.t, T.add(on.t, od.t))), dur_s)
+    # = on*(U+L)*T*L / (od*L) ... / (U/L * (on+od)/od * dur) -> on*(U+L)*T*L*L*od / (od*L*U*(on+od)*dur)
+    raw = T.ediv(T.mul(T.mul(raw_num, L), od.t), raw_den)
+    rawlow = T.emod(raw, 1 << 64)
+    exp_len = T.ite(T.eq(U.t, 0), hi, T.ite(T.gt(rawlow, hi), hi, T.ite(T.lt(rawlow, lo), lo, rawlow)))
+    S.prove(ctx, ob, "next_length_is_clamped_rfc_formula", sane, T.eq(nlen, exp_len), timeout_s=600)
+    S.prove(ctx, ob, "previous_hash_rate_is_clamped_estimate_at_least_one", sane, T.eq(merged(ps, lambda v: as_int(fld(v, 3))), adj), timeout_s=300)
+    S.prove(ctx, ob, "number_and_start_follow_the_tail_block", sane,
+            T.and_(T.eq(merged(ps, lambda v: as_int(fld(v, 0))), T.add(f["number"], 1)), T.eq(merged(ps, lambda v: as_int(fld(v, 5))), T.add(hn.t, 1))))
+    # rewards: R = Consensus::primary_epoch_reward_of_next_epoch(epoch) (its own schedule is C07.m6); base = R div len', rem = R mod len'
+    rps = S.run(ctx, "Consensus::primary_epoch_reward_of_next_epoch", [ctx.ref_to(cons), ctx.ref_to(ep)], assume=sane)
+    Rv = merged(rps, as_int)
+    for k, p in enumerate(rs):
+        lp = as_int(fld(p.value, 6)); bp = as_int(fld(p.value, 1)); rp = as_int(fld(p.value, 2))
+        S.prove(ctx, ob, f"path{k}_block_reward_and_remainder_split_the_epoch_reward", sane + [p.cond()], T.and_(T.eq(bp, T.ediv(Rv, lp)), T.eq(rp, T.emod(Rv, lp))), timeout_s=120)
+
+    def mul_hints(t, acc, seen):
+        if T.is_const(t) or t in seen:
+            return
+        seen.add(t)
+        if t[0] == "*":
+            a, b = t[2], t[3]
+            acc.append(T.implies(T.and_(T.gt(a, 0), T.gt(b, 0)), T.gt(t, 0)))
+        for x in (t[3:] if t[0] == "app" else t[2:]):
+            if not isinstance(x, str):
+                mul_hints(x, acc, seen)
+
+    if not compact_calls:
+        raise Inconclusive("difficulty_to_compact call not observed")
+    for k, (pc_, c) in enumerate(compact_calls):
+        hints = []
+        mul_hints(c, hints, set())
+        if not T.is_const(c) and c[0] == "div":
+            X, Y = c[2], c[3]
+            hints.append(T.implies(T.and_(T.gt(X, Y), T.gt(Y, 0)), T.ge(c, 1)))       # a > b > 0  =>  a div b >= 1 (arithmetic fact)
+            hints.append(T.implies(T.and_(T.ge(X, Y), T.gt(Y, 0)), T.ge(c, 1)))
+        S.prove(ctx, ob, f"call{k}_next_difficulty_is_at_least_one", sane + [pc_] + hints, T.ge(c, 1), timeout_s=120)
+    S.prove(ctx, ob, "last_block_hash_and_compact_wired", sane,
+            T.and_(*[T.implies(p.cond(), T.and_(bool(getattr(fld(p.value, 4), "name", "") == "hdr_hash"), T.eq(as_int(fld(p.value, 7)), ctx.int("compact_of_next_diff", "u32").t))) for p in rs]))
+    S.witness(ctx, ob, "reach_clamped_length", sane, T.and_(T.gt(U.t, 0), T.gt(rawlow, hi)))
+
+
+OBLIGATIONS = [m1_fields, m2_order, m3_min_epoch, m4_primary_rewards, m5_secondary, m6_halving, m7_bounding_length, m8_bounding_hash_rate, m9_next_epoch]
 
 
 def validate(S, native):
